@@ -110,14 +110,14 @@ type c14Run struct {
 func runC14(e *Env) {
 	x := &c14Run{e: e, st: newC14Stats()}
 	e.R.Rule = "(a) seeded scripts of 4-8 clients x <=40 ops (Create/GetByJoinCode/Delete/Count) run concurrently against session.Store with join codes overridden to a 16-value space; a history counts when >= 2 operations of different clients overlapped in time (distinct by script hash); TTL-50ms rounds judged by brackets; collision histories (scripted shapes + seeded random) on a Store with a 50 ms lifetime where a Create's first drawn code belongs to a live / expired-unreaped / expired-looked-up / reaped session and the harness reaps the old holder, a history counts when >= 1 lookup got a must-find / must-fail verdict (distinct by shape / by op list); " +
-		"(b) rounds against the real thruserv (fresh server per round) = (limit configuration, scenario, burst size, prefill/variant); a round counts when it reached its verdict (distinct by that tuple); includes receiver-limit and host-left / expiry rounds after scripted histories with duplicate peer ids (same id reconnects, a receiver presents another receiver's or the host's id, the host reconnects; and with the session filled up to its receiver limit first: a role=receiver connection presents the host's id, the id of a second sender-role connection - once, repeatedly, as a burst -, a live or departed receiver's id), join-code collision rounds (dictated draws, holder state) and first-burst rounds (fresh source addresses whose very first requests are a start-barrier burst)"
+		"(b) rounds against the real thruserv (fresh server per round) = (limit configuration, scenario, burst size, prefill/variant); a round counts when it reached its verdict (distinct by that tuple); includes receiver-limit and host-left / expiry rounds after scripted histories with duplicate peer ids (same id reconnects, a receiver presents another receiver's or the host's id, the host reconnects; and with the session filled up to its receiver limit first: a role=receiver connection presents the host's id, the id of a second sender-role connection - once, repeatedly, as a burst -, a live or departed receiver's id), message-size rounds per wire form of the sender (default framing / continuation frames of <= 64 bytes / permessage-deflate offered in the handshake with compressible and with hardly compressible content / both), with a limit and with the limit at 0, join-code collision rounds (dictated draws, holder state) and first-burst rounds (fresh source addresses whose very first requests are a start-barrier burst)"
 	x.partStore()
 	x.partStoreExpiry()
 	x.partStoreCollide()
 	x.partServer()
 
 	// samples: one per kind first, so that the few kept ones are diverse
-	order := []string{"history", "store-expiry", "store-collision", "collide", "dupid-recv", "dupid-recv-full", "dupid-hostleft", "first-burst-session-creates", "first-burst-ws-connects", "sessions", "receivers", "hostleft", "expiry", "msgsize", "msgrate", "wsconns", "iprate", "rate-ws-msgs", "rate-session-creates", "rate-ws-connects"}
+	order := []string{"history", "store-expiry", "store-collision", "collide", "dupid-recv", "dupid-recv-full", "dupid-hostleft", "first-burst-session-creates", "first-burst-ws-connects", "sessions", "receivers", "hostleft", "expiry", "msgsize", "msgsize-wire", "msgsize-deflate-offered", "msgrate", "wsconns", "iprate", "rate-ws-msgs", "rate-session-creates", "rate-ws-connects"}
 	for pass := 0; pass < 2; pass++ {
 		for _, k := range order {
 			if len(x.st.samples[k]) > pass {
@@ -859,6 +859,8 @@ func c14GenRounds(e *Env) []c14Round {
 	out = append(out, c14GenFirstRounds(e)...)
 	// join-code collisions with live / expired / reaped holders inside the real server (c14coll.go)
 	out = append(out, c14GenCollideRounds(e)...)
+	// message-size limit against senders that choose another wire form for their messages (c14life.go)
+	out = append(out, c14GenWireRounds(e)...)
 	// receiver limit and host-left / expiry brackets under histories with duplicate peer ids (c14dup.go)
 	out = append(out, c14GenDupRounds(e)...)
 	for i := range out {
@@ -906,6 +908,16 @@ func (x *c14Run) partServer() {
 	e.R.Require(x.st.get("hostleft:joins_after_point") >= 20, "too few joins started after the host-left point")
 	e.R.Require(x.st.get("expiry:must_admit") >= 6 && x.st.get("expiry:must_refuse") >= 6, "expiry brackets decided too little")
 	e.R.Require(x.st.get("zero:rounds") >= 6, "too few rounds with a limit at 0")
+	// message-size limit: every wire form of the sender was driven to a verdict with a limit and with the limit at 0
+	if only == "" || strings.Contains(","+only+",", ",msgsize,") {
+		e.R.Require(x.st.get("msgsize:decided:limited:wire=default") >= 1 && x.st.get("msgsize:decided:zero:wire=default") >= 1, "no decided msgsize round with the default wire form (limited and 0)")
+		for _, f := range c14WireForms {
+			e.R.Require(x.st.get("msgsize:decided:limited:"+f.Name) >= 1, "no decided msgsize round with a limit and the sender's messages as "+f.Name)
+		}
+		for _, name := range c14WireFormsZero {
+			e.R.Require(x.st.get("msgsize:decided:zero:"+name) >= 1, "no decided msgsize round with --max-message-bytes 0 and the sender's messages as "+name)
+		}
+	}
 	// join-code collisions inside the real server: every holder state was reached and judged
 	if only == "" || strings.Contains(","+only+",", ",collide,") {
 		for _, v := range c14CollVariants {
@@ -1441,9 +1453,13 @@ func (x *c14Run) hostOnly(r c14Round, srv *c14Server) (c14Create, *c14Join, bool
 }
 
 func (x *c14Run) receiverRetry(srv *c14Server, code string) *c14Join {
+	return x.receiverRetryOpt(srv, code, c14DialOpt{})
+}
+
+func (x *c14Run) receiverRetryOpt(srv *c14Server, code string, opt c14DialOpt) *c14Join {
 	var j *c14Join
 	for k := 0; k < 60; k++ {
-		j = srv.join(nil, code, "receiver", c14PeerID("rcv"), nil)
+		j = srv.joinOpt(nil, code, "receiver", c14PeerID("rcv"), nil, opt)
 		if j.Upgraded() || !(j.Status == 429 && (j.ErrText == c14ErrRecvLimit || j.ErrText == c14ErrConnLimit)) {
 			return j
 		}
